@@ -529,7 +529,67 @@ fn scenario_typing(rng: &mut Rng, id: String, rep: &mut Report, props: &[&str]) 
     finish(w, rep, props, &format!("typing {:?}", script.iter().collect::<String>()));
 }
 
+/// restart(true) right after a snapshot with more than 2^20 matches (buffers of that size are where shrinking / reuse
+/// policies live); plain items, no hooks
+fn huge_snapshot_restart(rep: &mut Report) {
+    let n: u32 = (1 << 20) + 4096;
+    let mut nucleo: Nucleo<u32> = Nucleo::new(Config::DEFAULT, Arc::new(|| ()), Some(4), 1);
+    let inj = nucleo.injector();
+    let mut next = 0u32;
+    while next < n {
+        let end = (next + 65_536).min(n);
+        inj.extend(next..end, |v, cols| cols[0] = if v % 2 == 0 { "ab".into() } else { "b".into() });
+        next = end;
+    }
+    let mut guard = 0;
+    while nucleo.tick(100).running && guard < 600 {
+        guard += 1;
+    }
+    let before = nucleo.snapshot().matched_item_count();
+    rep.count("directed.huge-snapshot-restarts");
+    rep.max("directed.max-matches-in-a-snapshot", before as u64);
+    if before != n {
+        rep.inconclusive(format!("huge snapshot scenario: {before} of {n} items matched by the empty pattern after {guard} ticks"));
+        return;
+    }
+    nucleo.restart(true);
+    let snap = nucleo.snapshot();
+    if snap.matched_item_count() != 0 || snap.item_count() != 0 || !snap.matches().is_empty() {
+        rep.violation(
+            "C12",
+            "snapshot-not-cleared",
+            "huge snapshot".into(),
+            jobj! {"problem" => format!("restart(true) after a snapshot with {n} matches: matched_item_count {}, item_count {}, matches().len() {}",
+                                       snap.matched_item_count(), snap.item_count(), snap.matches().len()),
+                   "case_id" => "huge-snapshot"},
+        );
+    }
+    let inj2 = nucleo.injector();
+    for v in [7u32, 8, 9] {
+        inj2.push(v, |_, cols| cols[0] = "new".into());
+    }
+    drop(inj);
+    guard = 0;
+    while nucleo.tick(100).running && guard < 600 {
+        guard += 1;
+    }
+    let snap = nucleo.snapshot();
+    let items: Vec<u32> = snap.matched_items(..).map(|it| *it.data).collect();
+    if items != [7, 8, 9] || snap.item_count() != 3 {
+        rep.violation(
+            "C12",
+            "old-stream-after-restart",
+            "huge snapshot".into(),
+            jobj! {"problem" => format!("after the restart the snapshot holds {} matches / item_count {} instead of the three new items (first: {:?})", items.len(), snap.item_count(), &items[..items.len().min(5)]),
+                   "case_id" => "huge-snapshot"},
+        );
+    }
+}
+
 pub fn run_directed(opts: &Opts, rep: &mut Report, props: &[&str]) {
+    if opts.shard == 0 && opts.replay.is_none() && !opts.small && props.contains(&"C12") && !cfg!(miri) {
+        huge_snapshot_restart(rep);
+    }
     set_hook(Some(worker_hook));
     set_delays(opts.delays);
     let range: Box<dyn Iterator<Item = u64>> = match opts.replay {
@@ -1066,6 +1126,87 @@ fn c13_tick_inside_notify(rng: &mut Rng, id: String, rep: &mut Report) {
     w.shutdown();
 }
 
+/// a run that has nothing to do (pattern unchanged, no new items, a writer still parked) ends between a tick's failed lock
+/// attempt and the tick re-arming the notification: whichever shortcut such a run takes, it is part of the handshake
+fn c13_idle_run_race(rng: &mut Rng, id: String, rep: &mut Report) {
+    reset_ctl(true);
+    let threads = *rng.pick(&[1usize, 2]);
+    let mut w = World::new(id.clone(), rng, threads, 1, None);
+    let empty = rng.chance(1, 3);
+    if !empty {
+        w.edit(0, "o");
+    }
+    let k = w.new_injector();
+    let n = rng.range(3, 60);
+    let first = w.alloc_ids(n as u32);
+    inject(&w.handles[k].inj, &w.reg, 0, first, n, true, &w.invoked, &w.completed);
+    let mut hw = HeldWriter::start(&mut w, k);
+    // the worker learns about the parked writer; afterwards every run finds nothing new
+    for _ in 0..rng.range(2, 3) {
+        w.n().tick(30);
+        wait_no_run_pending(2000);
+    }
+    // run R1 is spawned and held at its entry
+    pause_at(Point::RunEntry);
+    let st1 = w.n().tick(0);
+    let held = wait_paused(0, 1500);
+    if !held {
+        cancel_pause(0);
+    }
+    // the next tick clears the flag, fails to take the lock and is held right there; R1 runs to its end meanwhile
+    pause_at(Point::TickTryLockFailed);
+    let (begin, st2) = std::thread::scope(|s| {
+        let wref = &mut w;
+        let h = s.spawn(move || {
+            let begin = record_event(EvKind::TickBegin);
+            let st = wref.n().tick(0);
+            record_event(EvKind::TickEnd { changed: st.changed, running: st.running });
+            (begin, st)
+        });
+        let tick_parked = wait_paused(1, 1500);
+        release(0);
+        // R1 has only microseconds of work left; its last yield point may be skipped by a shortcut, so time decides
+        std::thread::sleep(Duration::from_millis(15));
+        if !tick_parked {
+            cancel_pause(1);
+        }
+        release(1);
+        h.join().unwrap()
+    });
+    rep.count(&format!("c13.idle-run-race.first-running={}.held={held}.running={}", st1.running, st2.running));
+    let ok = wait_no_run_pending(3000) || w.runs_finished_barrier(3000);
+    let events_before_release = with_ctl(|c| c.events.len());
+    std::thread::sleep(Duration::from_millis(2));
+    if !ok {
+        rep.count("c13.runs-still-pending(inconclusive)");
+    } else if held {
+        rep.count("c13.schedules-judged");
+        rep.count("c13.idle-runs-ending-inside-a-tick");
+        let mut events = with_ctl(|c| c.events.clone());
+        events.truncate(events_before_release.max(1));
+        let notified_after = events.iter().any(|(s, k)| *k == EvKind::Notify && *s > begin);
+        if st2.running && !notified_after {
+            let tail: Vec<J> = events.iter().rev().take(30).rev().map(|(s, k)| J::Str(format!("{s}: {k:?}"))).collect();
+            rep.violation(
+                "C13",
+                "lost-wake-up",
+                format!("idle run ended inside a tick, empty_pattern={empty}"),
+                jobj! {"problem" => "a run with nothing to do ended while a tick sat between its failed lock attempt and re-arming the flag; the tick returned running=true, every run has returned, no notify followed",
+                       "case_id" => id, "events_tail" => J::Arr(tail)},
+            );
+        }
+    }
+    hw.release();
+    while !w.handles.is_empty() {
+        w.drop_injector(0);
+    }
+    let mut g = 0;
+    while w.n().tick(50).running && g < 100 {
+        g += 1;
+    }
+    w.shutdown();
+}
+
 /// two matchers in one process: matcher Y's run has taken its decision and notified but still holds its lock, an unrelated
 /// matcher X starts and finishes a run of its own, then Y is ticked with timeout 0 - the promise of that tick concerns Y alone
 fn c13_two_matchers(rng: &mut Rng, id: String, rep: &mut Report) {
@@ -1385,10 +1526,11 @@ pub fn run_c13(opts: &Opts, rep: &mut Report) {
                 let empty = (idx % 20) >= 9;
                 c13_schedule(order, empty, &mut rng, id, rep);
             }
-            18 if (idx / 20) % 5 == 0 => c13_injector_clause(&mut rng, id, rep),
-            18 if (idx / 20) % 5 == 1 => c13_update_config(&mut rng, id, rep),
-            18 if (idx / 20) % 5 == 2 => c13_tick_inside_notify(&mut rng, id, rep),
-            18 if (idx / 20) % 5 == 3 => c13_two_matchers(&mut rng, id, rep),
+            18 if (idx / 20) % 6 == 0 => c13_injector_clause(&mut rng, id, rep),
+            18 if (idx / 20) % 6 == 1 => c13_update_config(&mut rng, id, rep),
+            18 if (idx / 20) % 6 == 2 => c13_tick_inside_notify(&mut rng, id, rep),
+            18 if (idx / 20) % 6 == 3 => c13_two_matchers(&mut rng, id, rep),
+            18 if (idx / 20) % 6 == 4 => c13_idle_run_race(&mut rng, id, rep),
             18 => c13_same_count(&mut rng, id, rep),
             _ => {
                 set_delays(true);
@@ -1399,7 +1541,7 @@ pub fn run_c13(opts: &Opts, rep: &mut Report) {
         rep.count("histories");
         rep.distinct(mix(&[opts.seed, opts.shard, idx]));
         if rep.want_sample() && idx % 7 == 0 {
-            rep.sample(jobj! {"kind" => if idx % 20 < 18 { format!("directed ordering [{}] empty_pattern={}", ORDERINGS[((idx / 20 * 18 + idx % 20) % 11) as usize], (idx % 20) >= 9) } else if idx % 20 == 18 { ["injector clause", "update_config while a run is held", "tick inside the notify callback", "two matchers", "same match count"][((idx / 20) % 5) as usize].to_string() } else { "event loop with delays".to_string() }});
+            rep.sample(jobj! {"kind" => if idx % 20 < 18 { format!("directed ordering [{}] empty_pattern={}", ORDERINGS[((idx / 20 * 18 + idx % 20) % 11) as usize], (idx % 20) >= 9) } else if idx % 20 == 18 { ["injector clause", "update_config while a run is held", "tick inside the notify callback", "two matchers", "idle run ends inside a tick", "same match count"][((idx / 20) % 6) as usize].to_string() } else { "event loop with delays".to_string() }});
         }
         let timeouts = with_ctl(|c| std::mem::take(&mut c.pause_timeouts));
         rep.add("pause-timeouts", timeouts);
